@@ -33,7 +33,7 @@ PROFILES = [
 
 
 def budget(tier):
-    return dict(examples=300, seconds=40) if tier == "quick" else dict(examples=2500, seconds=300)
+    return dict(examples=300, seconds=40) if tier == "quick" else dict(examples=1500, seconds=300)
 
 
 @st.composite
